@@ -21,6 +21,7 @@ typedef int Index;
 #define FSZ ((long)sizeof(Float))
 #define MAXD 32768 /* stated precondition: dimensions <= 2^15, so that every packed-index product fits int */
 #define GV_MACHINE_BOUND(x) (x)
+#define GV_GHOST(...) __VA_ARGS__ /* proof-only statement injected by the spec (lemma instantiation); skipped by lemmas.py */
 
 /* ---- class layouts (data members only; base classes as first member) --------------------------------------- */
 struct MemRep { Float *rep; Index sz; };
@@ -49,7 +50,13 @@ struct BandMat { struct MatBase base; Float tol_; Index band_; };
                     (A)->base.col_ == (A)->base.row_ && 0 <= (A)->band_ && (A)->band_ < MAXD && \
                     (A)->base.mem.sz == (A)->base.row_ * ((A)->band_ + 1))
 
-/* ---- lemma functions (proved by z3, see above) -------------------------------------------------------------- */
+/* ---- lemma functions (proved by z3, see above) --------------------------------------------------------------
+   extract.py switches the automatic safety checks off for specification text; they are switched back ON for the
+   lemma statements: "the lemma's integer expressions do not overflow under GV_MACHINE_BOUND" is an obligation at
+   every use (that is what lets a fact about mathematical integers be used about machine ints).                 */
+#pragma CPROVER check push
+#pragma CPROVER check enable "signed-overflow"
+#pragma CPROVER check enable "div-by-zero"
 void gv_lemma_mat_bounds(int rows, int cols, int r, int c)
 __CPROVER_requires(GV_MACHINE_BOUND(rows <= 32768 && cols <= 32768))
 __CPROVER_requires(1 <= r && r <= rows && 1 <= c && c <= cols)
@@ -80,6 +87,8 @@ __CPROVER_requires(GV_MACHINE_BOUND(d <= 32768 && b < 32768))
 __CPROVER_requires(0 <= b && 1 <= r && r <= d && 0 <= k && k <= b)
 __CPROVER_assigns()
 __CPROVER_ensures(0 <= (r - 1) * (b + 1) + k && (r - 1) * (b + 1) + k < d * (b + 1));
+
+#pragma CPROVER check pop
 
 /* ---- contracts of the element accessors (rule R9: every other unit reaches elements through these) ---------- */
 #define MV_CONTRACT_MemRep_begin \
